@@ -3034,7 +3034,7 @@ def gen_EngineLife(repo):
                 seen.append(a)
         L.append("def members%s : List String := %s" % (tag, strs(_lf_members(body))))
         L.append("def initAssigned%s : List String := %s" % (tag, strs(seen)))
-        pb = cpp_function_body(body, r"int\s+Poisson\s*\(")
+        pb = cpp_function_body(body, r"(?:int|long\s+long)\s+Poisson\s*\(")
         L.append("def poissonBody%s : String := %s\n" % (tag, lean_str(_lf_norm(pb))))
     for fname, cls in (("Euler3D.hpp", "Euler3D"), ("TauLeap3D.hpp", "TauLeap3D"), ("Gillespie3D.hpp", "Gillespie3D"),
                        ("EulerGraph.hpp", "EulerGraph"), ("TauLeapGraph.hpp", "TauLeapGraph"), ("GillespieGraph.hpp", "GillespieGraph")):
@@ -3301,7 +3301,7 @@ def gen_Stoch(repo):
         ("diffusionRate", r"double\s+DiffusionRate\s*\([^)]*\)\s*", "SimulationAlgorithm3DBase.hpp", "SimulationAlgorithmGraphBase.hpp"),
         ("diffusionRateDifference", r"double\s+DiffusionRateDifference\s*\([^)]*\)\s*", "SimulationAlgorithm3DBase.hpp", "SimulationAlgorithmGraphBase.hpp"),
         ("reactionRate", r"double\s+ReactionRate\s*\([^)]*\)\s*", "SimulationAlgorithm3DBase.hpp", "SimulationAlgorithmGraphBase.hpp"),
-        ("poissonFn", r"int\s+Poisson\s*\([^)]*\)\s*", "SimulationAlgorithm3DBase.hpp", "SimulationAlgorithmGraphBase.hpp"),
+        ("poissonFn", r"(?:int|long\s+long)\s+Poisson\s*\([^)]*\)\s*", "SimulationAlgorithm3DBase.hpp", "SimulationAlgorithmGraphBase.hpp"),
         ("buildMeshKr", r"void\s+Build_mesh_kr\s*\([^)]*\)\s*", "SimulationAlgorithm3DBase.hpp", "SimulationAlgorithmGraphBase.hpp"),
         ("buildMeshKd", r"void\s+Build_mesh_kd\s*\([^)]*\)\s*", "SimulationAlgorithm3DBase.hpp", "SimulationAlgorithmGraphBase.hpp"),
         ("computePropensities", r"void\s+ComputePropensities\s*\(\s*\)\s*", "Gillespie3D.hpp", "GillespieGraph.hpp"),
